@@ -28,6 +28,7 @@ EXPLANATIONS = {
 
 EX = r"^function::execute::"
 EXI = r"^function::execute::<impl function::IngredientImpl<C>>::"
+EXE = r"^function::execute::"
 
 
 @ob("C12.2", ["C12", "C18"], "finalising a head whose value or metadata still changes (or while an inner head has not converged) freezes a non-fixpoint as the result", kind="ONLYIF+FLOW")
@@ -210,3 +211,133 @@ def c15_2(cx):
         reach = m.reachable(tgt, "normal", cut_edges=edges | {(src, tgt)})
         cx.check(src not in reach or (src, tgt) is None, "the loop goes round only after try_complete_cycle_head returned Err with an incremented stamp", Site(m, src, len(m.blocks[src]["stmts"])), key="loop-rank")
     st = [d for d in m.full_defs_named("iteration")] if hasattr(m, "full_defs_named") else []
+
+
+@ob("C12.5", ["C12", "C18", "C01"], "a cycle query whose stored origin misses a leaf dependency of a provisional callee (or keeps the provisional callee itself) is later validated against the wrong inputs: a stale fixpoint result is reused", kind="MUSTCALL+TABLE (flattening visits every edge; sibling impls)")
+def c12_5(cx):
+    """complete_cycle_query stores flatten(input_outputs) - not the direct edges - as the origin; flatten_cycle_dependencies visits every direct edge (inputs through the owning ingredient's flatten_cycle_head_dependencies with the edge's own key, outputs verbatim); the ingredient impls agree: leaves insert their own input edge, functions delegate with (self, key of id, C::CYCLE_STRATEGY); the function walker returns without contributing only for a missing memo or an already visited key, inserts the key itself iff the memo is final, copies every input of cycle-handling callees and recurses into every input of plain callees."""
+    c = cx.fn(EXE + r"complete_cycle_query$")
+    fl = cx.one_call(c, EXE + r"flatten_cycle_dependencies$", "flatten in complete_cycle_query")
+    a = cx.args(fl)
+    cx.flow(c, a[1], [r"^zalsa_local::DetachedQuery::<'_>::input_outputs\(zalsa_local::ActiveQueryGuard::<'me>::detach\(\$2\)\)$"], [], "the edges flattened are this execution's own input_outputs", fl)
+    fin = cx.one_call(c, r"QueryCompletion::<'.*>::finish$|QueryCompletion.*::finish$", "finish in complete_cycle_query")
+    cx.order(fl, fin, "flattening precedes building the origin")
+    cx.flow(c, cx.arg(fin, 1), [r"^indexmap::IndexSet::<T, S>::drain\(" + re.escape(a[2]) + r", RangeFull\{\}\)$", r"IndexSet::<T, S>::drain\("], [r"input_outputs"], "the stored origin is the flattened set", fin)
+    cx.check(a[2] in cx.arg(fin, 1), "the set drained into the origin is the one that was filled", fin, {"filled": a[2], "stored": cx.arg(fin, 1)}, key="same-set")
+    f = cx.fn(EXE + r"flatten_cycle_dependencies$")
+    loops = cx.for_loops(f)
+    cx.require(len(loops) == 1, "flatten_cycle_dependencies: one loop")
+    nx = loops[0][0]
+    cx.flow(f, cx.arg(nx, 0), [r"copied\(indexmap::IndexSet::<T, S>::iter\(\$2\)\)\)$"], [r"rev|skip|take|filter"], "the loop runs over all direct edges", nx)
+    rec = cx.one_call(f, r"^ingredient::Ingredient::flatten_cycle_head_dependencies$", "dispatch to the owning ingredient")
+    ins = cx.one_call(f, r"^indexmap::IndexSet::<T, S>::insert$", "output carried over")
+    cx.for_each(f, nx, [rec, ins], "flatten_cycle_dependencies")
+    edge = r"<Copied as std::iter::Iterator>::next\(.*\)@Some\.0"
+    kind = r"QueryEdge::kind\(" + edge + r"\)"
+    cx.only_if(f, ins, VariantIn(kind, {"Output"}, desc="edge.kind() is Output"), "an edge is copied verbatim only if it is an output of this query")
+    cx.only_if(f, rec, VariantIn(kind, {"Input"}, desc="edge.kind() is Input"), "inputs are flattened through their ingredient")
+    ra = cx.args(rec)
+    key = r"zalsa_local::QueryEdge::key\(" + edge + r"\)"
+    cx.flow(f, ra[0], [r"^zalsa::Zalsa::lookup_ingredient\(\$1, key::DatabaseKeyIndex::ingredient_index\(" + key + r"\)\)$"], [], "the ingredient asked is the edge's own", rec)
+    cx.flow(f, ra[2], [r"^key::DatabaseKeyIndex::key_index\(" + key + r"\)$"], [], "with the edge's own id", rec)
+    cx.check(ra[3] == "$3" and ra[4] == "$4" and cx.arg(ins, 0) == "$3", "both arms fill the caller's flattened set / seen set", rec, {"args": ra}, key="sets")
+    cx.flow(f, cx.arg(ins, 1), [r"^" + edge + r"$"], [], "the output edge is carried over unchanged", ins)
+    # sibling implementations
+    impls = cx.fns(r"^<.* as ingredient::Ingredient>::flatten_cycle_head_dependencies$", 6)
+    table = {}
+    for b in impls:
+        if cx.facts.diverges(b):
+            table[b.path] = "panics"
+            continue
+        ins_ = b.calls(r"^indexmap::IndexSet::<T, S>::insert$")
+        dele = b.calls(r"^function::flatten_cycle_head_dependencies$")
+        if ins_ and not dele:
+            table[b.path] = "leaf"
+            cx.check(len(ins_) == 1 and cx.facts.must_call(b, r"^indexmap::IndexSet::<T, S>::insert$"), "leaf ingredient always records itself", ins_[0], key="leaf-insert " + b.path)
+            cx.flow(b, cx.arg(ins_[0], 0), [r"^\$4$"], [], "into the flattened set", ins_[0])
+            cx.flow(b, cx.arg(ins_[0], 1), [r"^zalsa_local::QueryEdge::input\(.*::database_key_index\(\$1, \$3\)\)$"], [r"QueryEdge::output"], "as an input edge for (its own ingredient, the id asked)", ins_[0])
+        elif dele:
+            table[b.path] = "function"
+            d = dele[0]
+            da = cx.args(d)
+            cx.check(cx.facts.must_call(b, r"^function::flatten_cycle_head_dependencies$"), "function ingredient always delegates to the walker", d, key="fn-delegate")
+            cx.flow(b, da[2], [r"^function::IngredientImpl::<C>::database_key_index\(\$1, \$3\)$"], [], "with its own key for the id asked", d)
+            cx.flow(b, da[3], [r"^const:.*CYCLE_STRATEGY"], [r"CycleRecoveryStrategy::(Panic|Fixpoint|FallbackImmediate)\{"], "and its own cycle strategy", d)
+            cx.check(da[1] == "$2" and da[4] == "$4" and da[5] == "$5", "and the caller's sets", d, {"args": da}, key="fn-sets")
+        else:
+            table[b.path] = "unknown"
+            cx.check(False, "flatten_cycle_head_dependencies impl neither records, delegates nor panics", None, key="impl-unknown " + b.path, body=b)
+    kinds = sorted(table.values())
+    cx.check(kinds.count("leaf") == 3 and kinds.count("function") == 1, "three leaf impls (input field, tracked field, interned) and the function impl", None, {"table": table}, key="impl-table", body=impls[0])
+    w = cx.fn(r"^function::flatten_cycle_head_dependencies$")
+    memo = r"FunctionIngredient>::memo\(\$1, \$2, key::DatabaseKeyIndex::key_index\(\$3\)\)"
+    prov = CallIs(r"MemoHeader::may_be_provisional$", True, desc="memo.may_be_provisional()")
+    own = cx.one_call(w, r"^indexmap::IndexSet::<T, S>::insert$", "final callee recorded")
+    cx.flow(w, cx.arg(own, 1), [r"^zalsa_local::QueryEdge::input\(\$3\)$"], [], "a final callee is recorded by its own key", own)
+    cx.only_if(w, own, CallIs(r"MemoHeader::may_be_provisional$", False, desc="!memo.may_be_provisional()"), "the callee itself is recorded only if its memo is final")
+    loops = cx.for_loops(w)
+    cx.require(len(loops) == 2, "walker: two loops (cycle-handling callee / plain callee)")
+    inputs = r"zalsa_local::QueryOriginRef::<'a>::inputs\(function::memo::MemoHeader::origin\(function::memo::ErasedMemo::<'memo>::header\(<FunctionIngredient as function::FunctionIngredient>::memo\(\$1, \$2, key::DatabaseKeyIndex::key_index\(\$3\)\)@Some\.0\)\)\)"
+    eq = w.calls(r"^std::cmp::PartialEq::eq$")
+    insfs = [x for x in w.calls(r"^indexmap::IndexSet::<T, S>::(insert_full|insert)$") if x != own and cx.arg(x, 0) == "$5"]
+    recw = cx.one_call(w, r"^ingredient::Ingredient::flatten_cycle_head_dependencies$", "recursion in the walker")
+    for nx, some_bb, none_bb in loops:
+        src = cx.arg(nx, 0)
+        if "QueryEdge::input" in src:
+            cx.flow(w, src, [r"^<Map as std::iter::IntoIterator>::into_iter\(<FilterMap as std::iter::Iterator>::map\(" + inputs + r", fn:zalsa_local::QueryEdge::input\)\)$"], [r"rev|skip|take"], "copy loop: over every input of the callee's memo", nx)
+            same = CallIs(r"^std::cmp::PartialEq::eq$", True, desc="flattened[expected_index] == Some(&input)")
+            cx.for_each(w, nx, insfs, "walker/copy", allow_skip=[same])
+            cx.only_if(w, nx, VariantIn(r"^\$4$", {"Fixpoint", "FallbackImmediate"}, desc="callee has cycle handling"), "inputs are copied (not recursed into) only for callees that flattened their own origin")
+            cx.require(len(eq) == 1, "one equality test in the copy loop")
+            ea = cx.args(eq[0])
+            item = r"<Map as std::iter::Iterator>::next\(.*\)@Some\.0"
+            cx.flow(w, ea[1], [r"^Option::Some\{0: " + item + r"\}$"], [], "the element compared is the current input", eq[0])
+            cx.flow(w, ea[0], [r"^indexmap::IndexSet::<T, S>::get_index\(\$5, "], [], "against the flattened set", eq[0])
+            for insf in insfs:
+                cx.flow(w, cx.arg(insf, 1), [r"^" + item + r"$"], [], "the element inserted is the current input", insf)
+        else:
+            cx.flow(w, src, [r"^<FilterMap as std::iter::IntoIterator>::into_iter\(" + inputs + r"\)$"], [r"rev|skip|take"], "recursion loop: over every input of the callee's memo", nx)
+            cx.for_each(w, nx, [recw], "walker/recurse")
+            ra = cx.args(recw)
+            item = r"<FilterMap as std::iter::Iterator>::next\(.*\)@Some\.0"
+            cx.flow(w, ra[0], [r"^zalsa::Zalsa::lookup_ingredient\(\$2, key::DatabaseKeyIndex::ingredient_index\(" + item + r"\)\)$"], [], "recursion asks the input's own ingredient", recw)
+            cx.flow(w, ra[2], [r"^key::DatabaseKeyIndex::key_index\(" + item + r"\)$"], [], "with the input's own id", recw)
+            cx.check(ra[3] == "$5" and ra[4] == "$6", "and the same sets", recw, {"args": ra}, key="rec-sets")
+    # early returns: only (no memo) | (final: recorded) | (already seen)
+    seen = cx.one_call(w, r"^std::collections::HashSet::<T, S, A>::insert$", "seen.insert")
+    cx.flow(w, cx.arg(seen, 1), [r"^\$3$"], [], "the visited mark is the callee's key", seen)
+    lits = [VariantIn(memo, {"None"}, desc="no memo"), CallIs(r"^std::collections::HashSet::<T, S, A>::insert$", False, desc="already visited")]
+    rets = w.return_blocks()
+    eng = OnlyIf(cx.facts, w)
+    cut = set()
+    for l in lits:
+        cut |= set(eng.establishing_edges(l))
+    hdrs = {nx.bb for nx, _, _ in loops}
+    reach = w.reachable(0, "normal", cut_edges=cut, cut_blocks={own.bb} | hdrs)
+    bad = [r for r in rets if r in reach]
+    cx.check(not bad, "the walker returns without recording the callee or walking its inputs only if there is no memo or the key was already visited", own, {"exits": bad} if bad else None, key="walker-exits")
+
+
+@ob("C12.1", ["C12", "C15", "C20"], "a cycle seeded with anything but cycle_initial, or with a stamp that claims finality / a non-minimal changed_at or durability, makes the iteration start above the bottom element (not the least fixpoint) or lets readers trust the seed", kind="FLOW")
+def c12_1(cx):
+    """fetch_cold_cycle's only insert: Memo::new(Some(C::cycle_initial(db, id, C::id_to_input(zalsa, id))), zalsa.current_revision(), QueryRevisions::fixpoint_initial(key, iteration)); fixpoint_initial = {changed_at: Revision::start(), durability: MAX, origin: derived(no edges, extra{cycle_heads: CycleHeads::initial(key, iteration), iteration, ..}), verified_final: false}; CycleHeads::initial = [CycleHead{key, iteration, removed: false}]; IterationStamp::initial(c) = new(0, c)."""
+    c = cx.fn(r"^function::fetch::<impl function::IngredientImpl<C>>::fetch_cold_cycle$")
+    ins = cx.one_call(c, r"^function::IngredientImpl::<C>::insert_memo$", "insert in fetch_cold_cycle")
+    a = cx.args(ins)
+    cx.check(a[0] == "$1" and a[1] == "$2" and a[2] == "$5" and a[4] == "$7", "the seed is inserted for the key and memo slot asked", ins, {"args": [a[0], a[1], a[2], a[4]]}, key="seed-slot")
+    cx.flow(c, a[3], [r"^function::memo::Memo::<C>::new\(Option::Some\{0: <C as function::Configuration>::cycle_initial\(\$4, \$5, <C as function::Configuration>::id_to_input\(\$2, \$5\)\)\}, zalsa::Zalsa::current_revision\(\$2\), zalsa_local::QueryRevisions::fixpoint_initial\(\$6, std::option::Option::<T>::unwrap_or_else\(std::option::Option::<T>::and_then\(function::memo::<impl function::IngredientImpl<C>>::get_memo_from_table_for\(\$1, \$2, \$5, \$7\), closure:.*fetch_cold_cycle::\{closure#1\}\[.*\]\), closure:.*fetch_cold_cycle::\{closure#2\}\[.*\]\)\)\)$"], [r"Option::None", r"<C as function::Configuration>::execute"], "seed = Memo::new(Some(cycle_initial(db, id, input)), current_revision, fixpoint_initial(key, iteration of the previous seed or initial))", ins)
+    k2 = cx.fn(r"^function::fetch::<impl function::IngredientImpl<C>>::fetch_cold_cycle::\{closure#2\}$")
+    cx.flow(k2, k2.origin_local(0), [r"^cycle::IterationStamp::initial\(\$1\.0\)$", r"^cycle::IterationStamp::initial\("], [], "a fresh cycle starts at IterationStamp::initial(cancellation_count)")
+    fi = cx.fn(r"^zalsa_local::QueryRevisions::fixpoint_initial$")
+    cx.flow(fi, fi.origin_local(0), [r"^QueryRevisions\{changed_at: revision::Revision::start\(\), durability: const:durability::Durability::MAX(=\d+)?, origin_and_extra: zalsa_local::OriginAndExtra::derived\(std::iter::empty\(\), zalsa_local::QueryRevisionsExtra::new\((<AccumulatedMap as std::default::Default>::default\(\), )?<ThinVec as std::default::Default>::default\(\), cycle::CycleHeads::initial\(\$1, \$2\), \$2, const:0\)\), (accumulated_inputs: [^,]*, )?verified_final: std::sync::atomic::Atomic::<bool>::new\(const:0\)\}$"], [r"Atomic::<bool>::new\(const:1\)", r"derived_untracked", r"durability: const:durability::Durability::(MIN|LOW|MEDIUM|HIGH)\b", r"changed_at: (?!revision::Revision::start\(\))"], "fixpoint_initial: bottom stamp, no edges, provisional, head = itself at this iteration")
+    ch = cx.fn(r"^cycle::CycleHeads::initial$")
+    push = cx.one_call(ch, r"^thin_vec::ThinVec::<T>::push$", "push in CycleHeads::initial")
+    cx.flow(ch, cx.arg(push, 1), [r"^CycleHead\{database_key_index: \$1, iteration: \$2, removed: const:0\}$"], [r"removed: const:1"], "the initial head list is exactly [(key, iteration, not removed)]", push)
+    ii = cx.fn(r"^cycle::IterationStamp::initial$")
+    cx.flow(ii, ii.origin_local(0), [r"^cycle::IterationStamp::new\(const:0, \$1\)$"], [r"new\(const:[1-9]"], "the initial stamp has iteration 0")
+    nw = cx.fn(r"^cycle::IterationStamp::new$")
+    cx.flow(nw, nw.origin_local(0), [r"^IterationStamp\{0: core::num::<impl u16>::from_le_bytes\(array\(\$1, \$2\)\)\}$"], [r"array\(\$2, \$1\)"], "stamp = (iteration in the low byte, cancellation count in the high byte)")
+    itf = cx.fn(r"^cycle::IterationStamp::iteration$")
+    cx.flow(itf, itf.origin_local(0), [r"^core::num::<impl u16>::to_le_bytes\(\$1\.0\)\[const:0\]$"], [r"\[const:1\]"], "iteration() reads the low byte")
+    cc = cx.fn(r"^cycle::IterationStamp::cancellation_count$")
+    cx.flow(cc, cc.origin_local(0), [r"^core::num::<impl u16>::to_le_bytes\(\$1\.0\)\[const:1\]$"], [r"\[const:0\]"], "cancellation_count() reads the high byte")
